@@ -12,9 +12,14 @@ ok = res.get("demo_clean_exit") == 0 and res.get("demo_changed_exit") == 1 and r
 dst = os.path.join(VERIF, "seeded", sid)
 if ok:
     os.makedirs(dst, exist_ok=True)
-    for f in ("patch.diff", "demo.py", "notes.md"):
-        if os.path.exists(os.path.join(src, f)):
-            shutil.copy(os.path.join(src, f), os.path.join(dst, f))
+    for f in os.listdir(src):
+        sp = os.path.join(src, f)
+        if f.endswith(".log") or f == "__pycache__":
+            continue
+        if os.path.isdir(sp):
+            shutil.copytree(sp, os.path.join(dst, f), dirs_exist_ok=True, ignore=shutil.ignore_patterns("__pycache__", "*.pyc"))
+        else:
+            shutil.copy(sp, os.path.join(dst, f))
     meta = {
         "id": sid, "breaks_property": prop, "needs_to_manifest": needs,
         "confirmed": {"demo_passes_on_clean_tree": True, "demo_fails_on_changed_tree": True, "pinned_suite_on_changed_tree": res.get("suite")},
